@@ -359,6 +359,11 @@ func (c *compiler) compileExpList(exps []ast.ExpNode, dstRegs []ir.Register) {
 		for _, dst := range dstRegs[len(exps):] {
 			c.emitLoadConst(nil, nilK, dst)
 		}
+	} else {
+		// Extra expressions are evaluated too, their values are discarded.
+		for _, exp := range exps[commonCount:] {
+			c.compileExpNoDestHint(exp)
+		}
 	}
 }
 
